@@ -1442,11 +1442,28 @@ class OpGen:
                 lst = self.new_arg("refs:" + inst)
                 self.emit(f"op - set {r} {x['name']} {inst}")
                 self.emit(f"op - set {r} {y['name']} {lst}")
+                aliased = (x, y)
             elif pairs:
                 x, y = rng.sample(rng.choice(pairs), 2)
                 obj = self.value(x["kind"], bad=False)
                 self.emit(f"op - set {r} {x['name']} {obj}")
                 self.emit(f"op - set {r} {y['name']} {obj}")
+                aliased = (x, y)
+            else:
+                aliased = None
+            if aliased and rng.random() < 0.7:
+                # a copy-on-write helper replacing ONE of the two aliased places: the
+                # result must not share the other one with the receiver
+                z = rng.choice(aliased)
+                k = rng.random()
+                if k < 0.4:
+                    self.emit(f"op {self.dst(c)} with {r} {z['name']} {self.value(z['kind'], bad=False)} ip=0 ")
+                elif k < 0.6:
+                    self.emit(f"op {self.dst(c)} resetattr {r} {z['name']} ip=0")
+                elif k < 0.8:
+                    self.emit(f"op {self.dst(c)} update {r} ip=0 k{z['name']}={self.value(z['kind'], bad=False)}")
+                else:
+                    self.emit(f"op {self.dst(c)} copy {r}")
         elif name == "undeclared":
             # an attribute the class does not manage
             k = rng.random()
@@ -1737,13 +1754,15 @@ def dnc_held_ids(obj, out=None, seen=None):
             dnc_held_ids(x, out, seen)
     elif hasattr(type(obj), "__spec_class__") and hasattr(obj, "__dict__"):
         meta = type(obj).__spec_class__
+        # (reachability is computed into a private dict and merged: `out` may
+        # already contain some of these objects with an outdated set of children)
         if meta.do_not_copy:
-            reachable_ids(obj, out)
+            out.update(reachable_ids(obj))
             return out
         for k, v in obj.__dict__.items():
             spec = meta.attrs.get(k)
             if spec is not None and spec.do_not_copy:
-                reachable_ids(v, out)
+                out.update(reachable_ids(v))
             else:
                 dnc_held_ids(v, out, seen)
     return out
